@@ -72,6 +72,59 @@ theorem tape_referencing_not_send_sync (s y s' y' : Bool) :
     isSync structs (.adt Id.InvalidRecordIteratorError [.leaf s y]) = some false := by
   cases s <;> cases y <;> cases s' <;> cases y' <;> decide
 
+/-! ### quantified over the table: whatever holds a tape reference is neither `Send` nor `Sync`
+
+Not an enumeration: for EVERY struct / enum of the regenerated table that (transitively, through
+containers, references, tuples and other structs of the table) holds a `&WengertList<_>` in a field,
+and for EVERY assignment of `Send`/`Sync` flags to its type parameters, the type is neither `Send`
+nor `Sync`.  A new iterator / adaptor / error type that stores a `Record` or a tape reference is
+covered the moment it appears in the sources. -/
+
+theorem tape_holders_never_send_sync :
+    ∀ id ∈ List.range structs.length, structHoldsRefTo structs Id.WengertList id = true →
+      ∀ fl ∈ allFlags ((structs[id]?).map (·.nparams) |>.getD 0),
+        isSend structs (instantiate id fl) = some false ∧ isSync structs (instantiate id fl) = some false := by
+  decide +kernel
+
+-- non-vacuity: the structs this speaks about on the pinned tree (public and private ones)
+example : (List.range structs.length).filter (structHoldsRefTo structs Id.WengertList) =
+    [Id.Record, Id.RecordContainer, Id.AsRecords, Id.InconsistentHistory, Id.InvalidRecordIteratorError,
+     Id.RecordContainerComponents] := by decide +kernel
+-- … and a struct that merely has a *parameter* which may be instantiated with a record is not one of them
+example : structHoldsRefTo structs Id.WengertList Id.TensorView = false := by decide +kernel
+
+/-- … and auto traits are monotone in the parameters, for every struct of the table: giving one type
+    parameter one more auto trait (`raiseOne`: one `false` flag becomes `true`) never loses one of
+    the struct's; by transitivity more auto traits on the parameters never lose any.  (So the
+    all-`Send + Sync` instantiation is the best case, and a parameter instantiated with a record —
+    neither — can only take traits away.) -/
+theorem send_sync_monotone_in_params :
+    ∀ id ∈ List.range structs.length,
+      ∀ fl ∈ allFlags ((structs[id]?).map (·.nparams) |>.getD 0), ∀ fl' ∈ raiseOne fl,
+        verdictLe (isSend structs (instantiate id fl)) (isSend structs (instantiate id fl')) = true ∧
+        verdictLe (isSync structs (instantiate id fl)) (isSync structs (instantiate id fl')) = true := by
+  decide +kernel
+
+example : raiseOne [(true, false), (false, false)] =
+    [[(true, true), (false, false)], [(true, false), (true, false)], [(true, false), (false, true)]] := by decide
+
+/-- containers, views and iterators *of records* inherit the tape's restriction: with the element
+    type `Record<'a, T>` (and the documented source over it) none of them is `Send` or `Sync` -/
+theorem containers_of_records_not_send_sync (s y : Bool) :
+    (∀ id ∈ [Id.Tensor, Id.Matrix, Id.MatrixPart, Id.MatrixQuadrants, Id.WithIndex],
+      isSend structs (.adt id [.adt Id.Record [.leaf s y]]) = some false ∧
+      isSync structs (.adt id [.adt Id.Record [.leaf s y]]) = some false) ∧
+    (∀ id ∈ [Id.TensorView, Id.TensorAccess, Id.TensorTranspose, Id.TensorIndex, Id.TensorExpansion,
+        Id.TensorRange, Id.TensorMask, Id.TensorRename, Id.TensorReverse, Id.TensorIterator,
+        Id.TensorReferenceIterator, Id.TensorReferenceMutIterator, Id.TensorOwnedIterator],
+      isSend structs (.adt id [.adt Id.Record [.leaf s y], .adt Id.Tensor [.adt Id.Record [.leaf s y]]]) = some false ∧
+      isSync structs (.adt id [.adt Id.Record [.leaf s y], .adt Id.Tensor [.adt Id.Record [.leaf s y]]]) = some false) ∧
+    (∀ id ∈ [Id.MatrixView, Id.MatrixRange, Id.MatrixReverse] ++ sharedBorrowIterators.tail ++
+        mutBorrowIterators.tail ++ [Id.ColumnMajorOwnedIterator, Id.RowMajorOwnedIterator],
+      isSend structs (.adt id [.adt Id.Record [.leaf s y], .adt Id.Matrix [.adt Id.Record [.leaf s y]]]) = some false ∧
+      isSync structs (.adt id [.adt Id.Record [.leaf s y], .adt Id.Matrix [.adt Id.Record [.leaf s y]]]) = some false) := by
+  cases s <;> cases y <;> decide
+
 /-! ### containers, traces, derivative sets: exactly as their element type -/
 
 
